@@ -288,30 +288,69 @@ class SymText:
         return _sb(z3.And(*[z3.And(_z(c) >= 48, _z(c) <= 57) for c in self.cps]))
 
     def __sym_to_int__(self, base=10):
-        if base != 10 or not self.cps:
-            if not self.cps:
-                raise ValueError("invalid literal for int() with base %d: ''" % base)
-            raise Unsupported("int(text, base != 10)")
-        cps = list(self.cps)
-        # Python accepts surrounding whitespace, one sign, underscores between digits, and (str only) any
-        # Unicode decimal digit.  Outside plain ASCII digits the proxy gives up loudly.
-        neg = False
-        if _len(cps) > 1:
-            c0 = _z(cps[0])
-            if _sb(c0 == 45):
-                neg = True
-                cps = cps[1:]
-            elif _sb(c0 == 43):
-                cps = cps[1:]
-        val = z3.IntVal(0)
+        """int(text, base) for base 10 / 16 over ASCII text, following CPython: surrounding ASCII whitespace, one
+        sign, an optional 0x prefix (base 16), single underscores between digits.  Non-ASCII characters (Unicode
+        digits / spaces) are not modelled: Unsupported."""
+        if base not in (10, 16):
+            raise Unsupported("int(text, base=%r)" % (base,))
+        cps = [_z(c) for c in self.cps]
+        bad = ValueError("invalid literal for int() with base %d" % base)
         for c in cps:
-            zc = _z(c)
-            if _sb(z3.And(zc >= 48, zc <= 57)):
-                val = val * 10 + (zc - 48)
-            elif _sb(z3.Or(zc == 95, zc == 32, zc == 9, zc == 10, zc == 11, zc == 12, zc == 13, zc > 127)):
-                raise Unsupported("int(): underscore / whitespace / non-ASCII digit candidates")
-            else:
-                raise ValueError("invalid literal for int() with base 10")
+            if _sb(c > 127):
+                raise Unsupported("int() of non-ASCII text")
+
+        def ws(c):
+            return _sb(z3.Or(c == 32, z3.And(c >= 9, c <= 13)))
+
+        while cps and ws(cps[0]):
+            cps = cps[1:]
+        while cps and ws(cps[-1]):
+            cps = cps[:-1]
+        if not cps:
+            raise bad
+        neg = False
+        if _sb(cps[0] == 45):
+            neg = True
+            cps = cps[1:]
+        elif _sb(cps[0] == 43):
+            cps = cps[1:]
+        if not cps:
+            raise bad
+        lead_us_ok = False
+        if base == 16 and _len(cps) >= 2 and _sb(cps[0] == 48) and _sb(z3.Or(cps[1] == 120, cps[1] == 88)):
+            cps = cps[2:]
+            lead_us_ok = True
+            if not cps:
+                raise bad
+
+        def digit(c):
+            """digit value as a z3 term, or None (forks on the character class)"""
+            if _sb(z3.And(c >= 48, c <= 57)):
+                return c - 48
+            if base == 16:
+                if _sb(z3.And(c >= 97, c <= 102)):
+                    return c - 87
+                if _sb(z3.And(c >= 65, c <= 70)):
+                    return c - 55
+            return None
+
+        val = z3.IntVal(0)
+        prev_digit = False
+        ndig = 0
+        for k, c in enumerate(cps):
+            if _sb(c == 95):
+                if not (prev_digit or (lead_us_ok and k == 0)):
+                    raise bad
+                prev_digit = False
+                continue
+            d = digit(c)
+            if d is None:
+                raise bad
+            val = val * base + d
+            prev_digit = True
+            ndig += 1
+        if not prev_digit or ndig == 0:
+            raise bad
         return SymInt(-val if neg else val)
 
     # codecs ------------------------------------------------------------------------------------------------
